@@ -76,29 +76,36 @@ def hasFiles (spec : J) (key : String) : Option Bool := do
   let n ← (← spec.getOr key (.arr [])).len
   pure (decide (n > 0))
 
+/-- `if secrets: secrets = [[…] for secret in secrets]` -/
+def dbSecrets (secrets : J) : Option J :=
+  if secrets.truthy then do
+    let xs ← secrets.elems
+    let ys ← xs.mapM dbSecret
+    pure (J.arr ys)
+  else pure secrets
+
+/-- `if service_account: service_account = [service_account['namespace'], service_account['name']]` -/
+def dbServiceAccount (sa : J) : Option J :=
+  if sa.truthy then do pure (J.arr [← sa.key "namespace", ← sa.key "name"])
+  else pure sa
+
+/-- `machine_spec = None; machine_type = resources.get('machine_type'); if machine_type: machine_spec = [machine_type,
+int(resources['preemptible']), resources['storage_gib']]` -/
+def dbMachineSpec (resources : J) : Option J := do
+  let machineType ← resources.get "machine_type"
+  if machineType.truthy then do
+    let preemptible ← (← resources.key "preemptible").toInt
+    let storage ← resources.key "storage_gib"
+    pure (J.arr [machineType, .int preemptible, storage])
+  else pure J.null
+
 /-- `BatchFormatVersion(v).db_spec(spec)` -/
 def dbSpec (v : Nat) (spec : J) : Option J :=
   if v = 1 then some spec
   else do
-    let secrets ← spec.get "secrets"
-    let secrets ←
-      if secrets.truthy then do
-        let xs ← secrets.elems
-        let ys ← xs.mapM dbSecret
-        pure (J.arr ys)
-      else pure secrets
-    let sa ← spec.get "service_account"
-    let sa ←
-      if sa.truthy then do pure (J.arr [← sa.key "namespace", ← sa.key "name"])
-      else pure sa
-    let resources ← spec.get "resources"
-    let machineType ← resources.get "machine_type"
-    let machineSpec ←
-      if machineType.truthy then do
-        let preemptible ← (← resources.key "preemptible").toInt
-        let storage ← resources.key "storage_gib"
-        pure (J.arr [machineType, .int preemptible, storage])
-      else pure J.null
+    let secrets ← dbSecrets (← spec.get "secrets")
+    let sa ← dbServiceAccount (← spec.get "service_account")
+    let machineSpec ← dbMachineSpec (← spec.get "resources")      -- computed for every version ≥ 2
     let hasIn ← hasFiles spec "input_files"
     let hasOut ← hasFiles spec "output_files"
     if v < 5 then pure (.arr [secrets, sa, boolInt hasIn, boolInt hasOut])
@@ -149,21 +156,27 @@ def getMachineSpec (v : Nat) (spec : J) : Option J :=
 
 /-! ### region bit sets (`batch/batch/utils.py`) -/
 
+/-- loop body of `regions_to_bits_rep`: `idx = mapping[region]; assert idx < 64; result |= 1 << (idx - 1)` -/
+def toBitsStep (mapping : List (String × Nat)) (result : Nat) (region : String) : Option Nat := do
+  let idx ← mapping.lookup region                      -- KeyError
+  if idx < 64 then                                     -- assert idx < 64
+    if idx = 0 then none                               -- 1 << -1: ValueError (negative shift count)
+    else pure (result ||| (1 <<< (idx - 1)))
+  else none
+
 /-- `regions_to_bits_rep(selected_regions, all_regions_mapping)`; the mapping is a dict region ↦ index -/
 def regionsToBits (selected : List String) (mapping : List (String × Nat)) : Option Nat :=
-  selected.foldlM (fun result region => do
-    let idx ← mapping.lookup region                    -- KeyError
-    if idx < 64 then                                   -- assert idx < 64
-      if idx = 0 then none                             -- 1 << -1: ValueError (negative shift count)
-      else pure (result ||| (1 <<< (idx - 1)))
-    else none) 0
+  selected.foldlM (toBitsStep mapping) 0
 
-/-- `regions_bits_rep_to_regions(bits, all_regions_mapping)` for an integer `bits` -/
+/-- loop body of `regions_bits_rep_to_regions`: `if bool((bits >> idx - 1) & 1): result.append(region)` -/
+def toRegionsStep (bits : Nat) (result : List String) (p : String × Nat) : Option (List String) :=
+  if p.2 = 0 then none                                 -- bits >> -1: ValueError
+  else if ((bits >>> (p.2 - 1)) &&& 1) != 0 then pure (result ++ [p.1])
+  else pure result
+
+/-- `regions_bits_rep_to_regions(bits, all_regions_mapping)` for an integer `bits` (dict iteration = insertion order) -/
 def bitsToRegions (bits : Nat) (mapping : List (String × Nat)) : Option (List String) :=
-  mapping.foldlM (fun result (region, idx) =>
-    if idx = 0 then none                               -- bits >> -1: ValueError
-    else if ((bits >>> (idx - 1)) &&& 1) != 0 then pure (result ++ [region])
-    else pure result) []
+  mapping.foldlM (toRegionsStep bits) []
 
 /-- the whole function: `None` ↦ `None` -/
 def bitsToRegionsOpt (bits : Option Nat) (mapping : List (String × Nat)) : Option (Option (List String)) :=
